@@ -13,8 +13,13 @@ use crate::wire;
 
 /// class suffix: which part of the proof was touched (field name without indices)
 fn region(what: &str) -> String {
+    // coordinated edits are named by their first words
+    if let Some(rest) = what.strip_prefix("coordinated: ") {
+        let words: Vec<&str> = rest.split_whitespace().take_while(|w| !w.chars().any(|c| c.is_ascii_digit() || c == '(')).take(3).collect();
+        return format!("coordinated-{}", words.join("-").trim_end_matches(':'));
+    }
     // descriptions mention "field <name>" or "component <name>"
-    for key in ["field ", "component ", "components "] {
+    for key in ["field ", "component ", "components ", "blob after "] {
         if let Some(i) = what.find(key) {
             let rest = &what[i + key.len()..];
             let name: String = rest.chars().take_while(|c| !c.is_whitespace() && *c != ')').collect();
@@ -30,6 +35,9 @@ fn region(what: &str) -> String {
                     _ if in_idx => {},
                     _ => out.push(c),
                 }
+            }
+            if key == "blob after " && what.contains("zero bytes") {
+                out.push_str("+zero-bytes");
             }
             return out;
         }
